@@ -108,6 +108,10 @@ type Case struct {
 	InBuf    int  `json:"in_buf"`
 	Workers  int  `json:"workers"`
 	Ops      []Op `json:"ops"`
+	// Repeat > 1 (hand-written regression cases only): the history is run that many
+	// times and the first violation counts. Used for defects that need a particular
+	// interleaving of the write-back workers with the request, which no case can force.
+	Repeat int `json:"repeat,omitempty"`
 }
 
 func gen(t *rapid.T) Case {
@@ -130,6 +134,14 @@ func gen(t *rapid.T) Case {
 		default:
 			return Op{K: opAdvance, N: rapid.IntRange(1, 3).Draw(t, "hours")}
 		}
+	}
+	// Half of the histories start with a backend in trouble, so that acknowledged
+	// blobs stay un-written-back while deletion paths run.
+	switch rapid.IntRange(0, 3).Draw(t, "initial_outage") {
+	case 0:
+		c.Ops = append(c.Ops, Op{K: opBackend, NS: ns(), N: rapid.IntRange(1, nBackendModes-1).Draw(t, "mode")})
+	case 1:
+		c.Ops = append(c.Ops, Op{K: opBackend, NS: 0, N: beDown}, Op{K: opBackend, NS: 1, N: beDown})
 	}
 	n := rapid.IntRange(2, 12).Draw(t, "steps")
 	for i := 0; i < n; i++ {
@@ -502,6 +514,10 @@ type ackInfo struct {
 	step       int
 	inWindow   string // deletion step that ran while this commit was held at its add-task step ("" = none)
 	wasPending bool   // some deletion attempt happened while the blob was not yet in its backend
+	// racedOther: the acknowledgement was a 409 conflict, and while that request ran the
+	// write-back of the same blob for the other namespace was completing (its task was
+	// still stored before the request, the blob was in the other backend after it).
+	racedOther bool
 }
 
 type outcome struct {
@@ -513,6 +529,20 @@ type outcome struct {
 }
 
 const livenessBound = 10 * time.Second
+
+// raceLabel marks the one open finding (C31-conflict-races-other-namespace): a
+// conflict acknowledgement for one namespace races the end of the blob's write-back
+// for the other namespace, which removes the persist flag the conflict path just
+// relied on.
+const raceLabel = "[acknowledged by a conflict while the write-back for another namespace was completing]"
+
+func knownConflictRace(c Case, v pbt.Verdict) bool {
+	first := v.Violation
+	if i := strings.IndexByte(first, '\n'); i >= 0 {
+		first = first[:i]
+	}
+	return c.Split && strings.HasPrefix(first, "acknowledged upload is neither in its backend nor in the origin cache") && strings.HasSuffix(first, raceLabel)
+}
 
 func uploadPath(ns, blob int, uid string) string {
 	p := fmt.Sprintf("/namespace/%s/blobs/%s/uploads", nsNames[ns], blobDig[blob].String())
@@ -558,6 +588,8 @@ func runOnce(c Case) (out outcome) {
 		release chan struct{}
 		done    chan int
 		during  []string
+
+		otherBefore bool
 	}
 	var held *heldCommit
 
@@ -605,15 +637,26 @@ func runOnce(c Case) (out outcome) {
 			// Classify the circumstances (first line = signature used for known findings).
 			other := ack{ns: 1 - a.ns, blob: a.blob}
 			switch {
-			case info.inWindow != "":
-				sig += " [deleted between the commit's persist flag and its write-back task]"
+			case info.racedOther:
+				sig += " " + raceLabel
 			case c.Split && acked[other] != nil && inBackend(other):
-				sig += " [write-back for another namespace cleared the persist flag]"
+				sig += " [the blob was written back for another namespace]"
 			}
 			return fmt.Sprintf("%s\n  %s: blob %d namespace %s acknowledged by %s at step %d; %s; backend %s does not have it (deletion in commit window: %q)\n  blob %d = %s\n  origin state:\n%s",
 				sig, where, a.blob, nsNames[a.ns], info.how, info.step, state, nsNames[a.ns], info.inWindow, a.blob, blobDig[a.blob].Hex(), o.dump())
 		}
 		return ""
+	}
+	// otherTaskStored reports whether a write-back task for the blob is stored under the other namespace.
+	otherTaskStored := func(s slotState) bool {
+		if !c.Split {
+			return false
+		}
+		var n int
+		if err := o.db.Get(&n, `SELECT COUNT(*) FROM writeback_task WHERE namespace=? AND name=?`, nsNames[1-s.ns], blobDig[s.blob].Hex()); err != nil {
+			return false
+		}
+		return n > 0
 	}
 	noteAck := func(s slotState, how string, step int) *ackInfo {
 		a := ack{ns: s.ns, blob: s.blob}
@@ -622,14 +665,20 @@ func runOnce(c Case) (out outcome) {
 		}
 		return acked[a]
 	}
-	handleStatus := func(s slotState, code int, what string, step int) *ackInfo {
+	handleStatus := func(s slotState, code int, what string, step int, otherStoredBefore bool) *ackInfo {
 		switch {
 		case code >= 200 && code < 300 && what == "commit":
 			cls["ack-commit-2xx"] = true
 			return noteAck(s, "commit 2xx", step)
 		case code == http.StatusConflict:
 			cls["ack-conflict-409-"+what] = true
-			return noteAck(s, "conflict 409 on "+what, step)
+			_, had := acked[ack{ns: s.ns, blob: s.blob}]
+			info := noteAck(s, "conflict 409 on "+what, step)
+			if !had && c.Split && otherStoredBefore && inBackend(ack{ns: 1 - s.ns, blob: s.blob}) {
+				info.racedOther = true
+				cls["conflict-ack-while-other-namespace-write-back-completes"] = true
+			}
+			return info
 		}
 		return nil
 	}
@@ -656,7 +705,7 @@ func runOnce(c Case) (out outcome) {
 			held = nil
 			return "held commit did not finish"
 		}
-		if info := handleStatus(held.slot, code, "commit", held.step); info != nil && len(held.during) > 0 && info.step == held.step {
+		if info := handleStatus(held.slot, code, "commit", held.step, held.otherBefore); info != nil && len(held.during) > 0 && info.step == held.step {
 			info.inWindow = strings.Join(held.during, ", ")
 			cls["deletion-inside-commit-window"] = true
 		}
@@ -688,12 +737,13 @@ func runOnce(c Case) (out outcome) {
 		switch op.K {
 		case opStart:
 			s := slotState{blob: op.Blob, ns: op.NS}
+			before := otherTaskStored(s)
 			code, hdr, _ := o.do("POST", uploadPath(op.NS, op.Blob, ""), nil, nil)
 			if code == http.StatusOK && hdr.Get("Location") != "" {
 				s.active, s.uid = true, hdr.Get("Location")
 				slots[op.Slot] = s
 			} else {
-				handleStatus(s, code, "start", i)
+				handleStatus(s, code, "start", i, before)
 				slots[op.Slot] = slotState{}
 			}
 		case opPatch:
@@ -708,10 +758,11 @@ func runOnce(c Case) (out outcome) {
 				cuts = []int{0, len(data) / 2, len(data)}
 			}
 			for j := 0; j+1 < len(cuts); j++ {
+				before := otherTaskStored(s)
 				code, _, _ := o.do("PATCH", uploadPath(s.ns, s.blob, s.uid),
 					map[string]string{"Content-Range": fmt.Sprintf("%d-%d", cuts[j], cuts[j+1])}, data[cuts[j]:cuts[j+1]])
 				if code == http.StatusConflict {
-					handleStatus(s, code, "patch", i)
+					handleStatus(s, code, "patch", i, before)
 					break
 				}
 			}
@@ -721,6 +772,7 @@ func runOnce(c Case) (out outcome) {
 				cls["skipped-step-without-upload"] = true
 				continue
 			}
+			before := otherTaskStored(s)
 			if op.K == opCommitPaused && held == nil {
 				reached, release := o.wbm.arm()
 				done := make(chan int, 1)
@@ -736,11 +788,11 @@ func runOnce(c Case) (out outcome) {
 				}()
 				select {
 				case <-reached:
-					held = &heldCommit{slot: s, step: i, release: release, done: done}
+					held = &heldCommit{slot: s, step: i, release: release, done: done, otherBefore: before}
 					cls["commit-held-at-add-task"] = true
 				case code := <-done: // the commit never got to its write-back step
 					o.wbm.disarm()
-					handleStatus(s, code, "commit", i)
+					handleStatus(s, code, "commit", i, before)
 				case <-time.After(20 * time.Second):
 					out.infra = "held commit neither reached the gate nor finished"
 					close(release)
@@ -748,7 +800,7 @@ func runOnce(c Case) (out outcome) {
 				}
 			} else {
 				code, _, _ := o.do("PUT", uploadPath(s.ns, s.blob, s.uid), nil, nil)
-				handleStatus(s, code, "commit", i)
+				handleStatus(s, code, "commit", i, before)
 			}
 		case opResume:
 			if msg := finishHeld(); msg != "" {
@@ -896,6 +948,21 @@ func runOnce(c Case) (out outcome) {
 }
 
 func run(c Case) pbt.Verdict {
+	reps := c.Repeat
+	if reps < 1 || reps > 500 {
+		reps = 1
+	}
+	var v pbt.Verdict
+	for r := 0; r < reps; r++ {
+		v = runCase(c)
+		if v.Violation != "" {
+			return v
+		}
+	}
+	return v
+}
+
+func runCase(c Case) pbt.Verdict {
 	var last outcome
 	for attempt := 0; attempt < 3; attempt++ {
 		last = runOnce(c)
@@ -926,6 +993,6 @@ func TestProp(t *testing.T) {
 			"interleavings inside the commit are explored at one pause point only (the write-back manager's Add, reachable without a hook)",
 			"liveness is bounded: 10 s of healthy backends without the blob arriving, reproduced 3 times, counts as never",
 		},
-		Parts: []pbt.Part{pbt.NewPart("history", 1, gen, run)},
+		Parts: []pbt.Part{pbt.WithKnown(pbt.NewPart("history", 1, gen, run), "c31.conflict-ack-races-other-namespace-write-back", knownConflictRace)},
 	})
 }
